@@ -891,7 +891,7 @@ def plan_probes(rng, fam, kind, spec, Nx, Ny, quick, recipe=None, guide=None):
         # exist are needed: vertical bonds use the 'l'/'r' boundary MPSs, horizontal ones 't'/'b'.  Operators: not fermionically
         # odd (odd ones fall under KEY_BD_NN_ODD whatever the form of the input)
         usable = [b for b in bonds if (has_lr if b[0][1] == b[1][1] else has_tb)]
-        calm = [list(q) for q in pairs if not fam.odd(q[0])]
+        calm = [list(q) for q in pairs]   # odd operator pairs included since the repair 16704c5 of KEY_BD_NN_ODD
         for order in (["reversed", "shuffled"] if len(usable) >= 2 and calm else []):
             bl = list(usable)
             if order == "reversed":
@@ -1086,9 +1086,7 @@ def check_probe(ctx, fam, dense, v, recipe, kind, spec, env, probe, signs):
             ctx.count(f"overlap-word:string-charge={min(string_overlap(fam, dense, names, sites), 3)}")
             if len(set(map(tuple, sites))) < len(sites):
                 ctx.count("overlap-word:repeated-site")
-        in_candidate_region = any(fam.odd(nm) for nm in names) and (
-            (kind == "bd" and probe["fn"] == "measure_nn")
-            or (probe["fn"] == "measure_2site" and isinstance(probe["pairs"], list) and not probe.get("pairs_closed")))
+        in_candidate_region = False   # both former regions (KEY_BD_NN_ODD, KEY_2SITE_PAIRS_ODD) are repaired: judged like everything else
         if not in_candidate_region:
             ctx.extra["max_err"] = max(ctx.extra.get("max_err", 0.0), float(err))
         if probe["fn"] == "measure_2site":
